@@ -1,5 +1,11 @@
 NOTE = "trusted: CPython, spacepackets 0.26.1 PDU classes, the harness (xmc engine, reference models); every explored path is an execution of the real cfdppy code from /repo's working tree; root-replay validation re-executes sampled paths without snapshots"
 CLAIMED = {
+ "C02": ("explicit-state BFS over the real SourceHandler+DestHandler on a fault-free FIFO link: all interleavings of state-machine calls and deliveries, terminal-state classification + cycle search, per configuration",
+         "complete reachable graph of the two real handlers for every configuration of a stated product (modes, closure, NAK mode, checksum types, CRC flag, id/sequence widths, segment lengths incl. derived, sizes 0..3L+1, destination shapes, metadata-only); every terminal state must be a successful completion, no exception, no fault callback, no cycle",
+         NOTE, "DESIGN.md 4 C02"),
+ "C03": ("explicit-state BFS over the real SourceHandler+DestHandler on a FIFO link with at most K counted drop/duplicate/delay faults, urgent per-entity virtual time; terminal-state classification + non-progress cycle search",
+         "complete reachable graph for K<=2 (quick; K<=3 thorough) faults on every PDU in either direction, sizes 0..2L+1, both NAK modes, closure on/off, limits K+1: finite DAG whose sinks are all successful completions, i.e. every fair execution with <=K faults delivers the file",
+         NOTE, "DESIGN.md 4 C03"),
  "C18": ("explicit-state BFS to fixed point over the real LostSegmentTracker vs interval-set reference model",
          "complete enumeration of every reachable tracker content over offsets 0..N (N=6 quick, 8 thorough) under all add/remove/coalesce operations in the property's alphabet, with step-wise agreement against an independent range-list model",
          NOTE, "DESIGN.md 4 C18"),
